@@ -72,7 +72,8 @@ EvSuggest(c, keys, consts, types) ==
        \cup Flag(~Member(c), "outside_domain")
        \cup Flag(queue # <<>> /\ c # Head(queue), "initial_order")
        \cup Flag(cf.norepeat /\ c \in suggested, "repeat")
-       \cup Flag(done, "suggest_after_nothing_left")
+       \* (only where no-repeat is promised: PBT queues clones of known configurations although its random searcher is exhausted)
+       \cup Flag(done /\ cf.norepeat, "suggest_after_nothing_left")
   /\ queue' = IF queue # <<>> THEN Tail(queue) ELSE queue
   /\ suggested' = suggested \cup {c}
   /\ nsug' = nsug + 1
